@@ -271,11 +271,11 @@ pub fn run_session(ctx: &Ctx, lines: &[String], eof_after: Option<usize>, raw_ta
     };
     if eof_after.is_some() {
         eng.close_stdin();
-        match eng.wait_exit(Duration::from_secs(2)) {
+        match eng.wait_exit(Duration::from_secs(3)) {
             Some(_) => {}
             None => {
                 let spinning = eng.stderr_bytes > 100_000;
-                return Err(fail("eof", format!("eof/no-exit/{}", if spinning { "spinning" } else { "hung" }), format!("stdin closed after {:?}: the engine did not terminate within 2 s ({} bytes on stderr)", shown.get(n_send.wrapping_sub(1)), eng.stderr_bytes), &eng));
+                return Err(fail("eof", format!("eof/no-exit/{}", if spinning { "spinning" } else { "hung" }), format!("stdin closed after {:?}: the engine did not terminate within 3 s ({} bytes on stderr)", shown.get(n_send.wrapping_sub(1)), eng.stderr_bytes), &eng));
             }
         }
         if let Some(p) = main_thread_panicked(&eng) {
@@ -286,7 +286,7 @@ pub fn run_session(ctx: &Ctx, lines: &[String], eof_after: Option<usize>, raw_ta
     }
     // a GUI would stop a running search before asking for readiness; liveness is asserted either way
     eng.send("stop");
-    let ok = eng.ready(Duration::from_secs(2));
+    let ok = eng.ready(Duration::from_secs(3));
     if !ok {
         let died = eng.try_status();
         let mp = main_thread_panicked(&eng);
@@ -300,19 +300,19 @@ pub fn run_session(ctx: &Ctx, lines: &[String], eof_after: Option<usize>, raw_ta
             _ => "engine alive but silent".to_string(),
         };
         let kind = if mp.is_some() { "main-panic" } else if died.is_some() { "exited" } else { "hung" };
-        return Err(fail("survive", format!("survive/{kind}/{culprit}"), format!("after the session no readyok within 2 s: {what}"), &eng));
+        return Err(fail("survive", format!("survive/{kind}/{culprit}"), format!("after the session no readyok within 3 s: {what}"), &eng));
     }
     if let Some(p) = main_thread_panicked(&eng) {
         return Err(fail("survive", format!("survive/main-panic/{}", cmd_class(&last_cmd)), format!("main thread panicked: {p}"), &eng));
     }
     eng.send("quit");
-    match eng.wait_exit(Duration::from_secs(2)) {
+    match eng.wait_exit(Duration::from_secs(3)) {
         Some(st) => {
             if !st.success() {
                 return Err(fail("quit", "quit/nonzero-status".into(), format!("quit ended the engine with {st}"), &eng));
             }
         }
-        None => return Err(fail("quit", "quit/no-exit".into(), "quit did not terminate the engine within 2 s".into(), &eng)),
+        None => return Err(fail("quit", "quit/no-exit".into(), "quit did not terminate the engine within 3 s".into(), &eng)),
     }
     Ok(())
 }
@@ -389,5 +389,5 @@ pub fn replay(ctx: &Ctx, case: &Value) -> Report {
 }
 
 pub const LEVEL: &str = "exploration";
-pub const RULE: &str = "sessions of 1..25 lines against the real engine binary, each line drawn from a grammar over the UCI vocabulary: the eight commands with well-formed arguments (go budgets that end by themselves), go keywords with the value dropped / duplicated / reordered / replaced by junk (negative, 1e3, 0x10, 40-digit, words, empty, non-ASCII digits), go flags in odd places, setoption with name/value in every order and multiplicity, position with unknown kind / missing 'moves' / empty or illegal or malformed move lists (FEN arguments are always valid FEN, in 6-field and in 4-field form), unknown words, blank lines, tabs, 10 kB lines, non-ASCII text; plus fixed cases: end-of-input at the start, after a line, in the middle of a line, and bytes that are not valid UTF-8. Ending: stop + isready (readyok within 2 s, main thread not panicked) + quit (exit status 0 within 2 s), or end-of-input after a generated line (exit within 2 s). A search-thread panic is C09's subject and ignored here. Non-trivial = session containing at least one malformed line; distinct by (text, ending).";
-pub const ASSUMPTIONS: &[&str] = &["FEN arguments are valid (the statement's assumption)", "2 s stands in for 'promptly'; 8 engine processes run concurrently"];
+pub const RULE: &str = "sessions of 1..25 lines against the real engine binary, each line drawn from a grammar over the UCI vocabulary: the eight commands with well-formed arguments (go budgets that end by themselves), go keywords with the value dropped / duplicated / reordered / replaced by junk (negative, 1e3, 0x10, 40-digit, words, empty, non-ASCII digits), go flags in odd places, setoption with name/value in every order and multiplicity, position with unknown kind / missing 'moves' / empty or illegal or malformed move lists (FEN arguments are always valid FEN, in 6-field and in 4-field form), unknown words, blank lines, tabs, 10 kB lines, non-ASCII text; plus fixed cases: end-of-input at the start, after a line, in the middle of a line, and bytes that are not valid UTF-8. Ending: stop + isready (readyok within 3 s, main thread not panicked) + quit (exit status 0 within 3 s), or end-of-input after a generated line (exit within 3 s). A search-thread panic is C09's subject and ignored here. Non-trivial = session containing at least one malformed line; distinct by (text, ending).";
+pub const ASSUMPTIONS: &[&str] = &["FEN arguments are valid (the statement's assumption)", "3 s stands in for 'promptly'; 8 engine processes run concurrently"];
